@@ -776,7 +776,7 @@ def adt_aliases(d):
     return out
 
 
-def _delegations(d, known):
+def _delegations(d, known, fresh_only=True):
     """[(F, G)]: F is a function of the pinned tree whose whole body is `G(its own parameters, in
     order)` - the result handed back as it is (or re-borrowed) - and G is a crate-private
     function the pinned tree does not have, with the same parameter and result types."""
@@ -789,7 +789,9 @@ def _delegations(d, known):
     for b in d["bodies"]:
         F = b["path"]
         # (an impl of a trait is named by the trait and its type: it cannot be a fresh helper)
-        if not (F in known or b.get("impl_trait")) or b.get("def_kind") not in ("Fn", "AssocFn") or b.get("derived") or "body" not in b or "instance_of" in b:
+        if fresh_only and not (F in known or b.get("impl_trait")):
+            continue
+        if b.get("def_kind") not in ("Fn", "AssocFn") or b.get("derived") or "body" not in b or "instance_of" in b:
             continue
         body = b["body"]
         blocks = [x for x in body["blocks"] if not x.get("cleanup")]
@@ -800,10 +802,14 @@ def _delegations(d, known):
         if t0.get("k") != "call" or t1.get("k") != "return" or t0.get("target") != 1:
             continue
         G = t0.get("resolved")
-        if not G or G != t0.get("callee") or not t0.get("resolved_local") or G in known or G == F or len(by_path.get(G, [])) != 1:
+        if not G or not t0.get("resolved_local") or G == F or len(by_path.get(G, [])) != 1:
+            continue
+        if fresh_only and (G != t0.get("callee") or G in known):
             continue
         g = by_path[G][0]
-        if g.get("def_kind") not in ("Fn", "AssocFn") or g.get("impl_trait") or g.get("derived") or "instance_of" in g or (g.get("pub") and g.get("reachable")) or g.get("generics") and b.get("generics") != g.get("generics"):
+        if g.get("def_kind") not in ("Fn", "AssocFn") or g.get("derived") or "instance_of" in g:
+            continue
+        if fresh_only and (g.get("impl_trait") or (g.get("pub") and g.get("reachable")) or g.get("generics") and b.get("generics") != g.get("generics")):
             continue
         tys = d["types"]
         if [tys[i]["s"] for i in g.get("inputs", [])] != [tys[i]["s"] for i in b.get("inputs", [])] or tys[g["output"]]["s"] != tys[b["output"]]["s"]:
@@ -922,6 +928,14 @@ class FactBase:
                 for tail in ('"', "::{", "::promoted", "::<"):
                     raw = raw.replace(json.dumps(new_p)[1:-1] + tail, json.dumps(old_p)[1:-1] + tail)
             self.d = json.loads(raw)
+        # known functions that are nothing but another known function under a second name
+        # (`fn randomized() -> Self { Self::default() }`): {callee: the name that delegates to it}
+        self.named_as = {}
+        if self.presentation != "written":
+            for F_, G_ in _delegations(self.d, set(), fresh_only=False):
+                fb_ = [b_ for b_ in self.d["bodies"] if b_["path"] == F_]
+                if fb_ and not fb_[0].get("impl_trait") and G_.startswith("<") and " as std::default::Default>::default" in G_:
+                    self.named_as[G_] = F_
         self.delegations = []
         if self.presentation != "written":
             # a function the rules know that now only hands its arguments to a fresh private
